@@ -377,7 +377,7 @@ impl Prop for C12 {
         let mut idx = 0u64;
         for game in 0u8..5 {
             for language in 0u8..8 {
-                for variant in 0..3 {
+                for variant in 0..5 {
                     let mine = idx % nshards == shard;
                     idx += 1;
                     if !mine {
@@ -389,6 +389,14 @@ impl Prop for C12 {
                         Entry { path: comp.into(), file: Some(Payload::Repeat(7, 50)), corrupt: false },
                         Entry { path: "data/readme".into(), file: Some(Payload::Raw(vec![9])), corrupt: false },
                     ];
+                    let mut lower = lower;
+                    if variant >= 3 {
+                        if let Some(lp) = crate::gen::fs::expected_localized(GAMES[game as usize], LANGS[language as usize], "m/GameData.bin") {
+                            if lp != "m/GameData.bin" {
+                                lower.push(Entry { path: lp, file: Some(Payload::Raw(vec![3, 2, 1])), corrupt: false });
+                            }
+                        }
+                    }
                     let ops = match variant {
                         0 => vec![
                             Op::Read { path: "m/GameData.bin".into(), localized: false },
@@ -405,6 +413,32 @@ impl Prop for C12 {
                             Op::Read { path: comp.into(), localized: true },
                             Op::Write { path: comp.into(), payload: Payload::Raw(vec![]), localized: false },
                         ],
+                        // one location under its two spellings: P with localisation and localize(P) without (the same string where the pair is
+                        // unsupported or the mapping is the identity); reads through one spelling must see writes through the other
+                        3 | 4 => {
+                            let p = "m/GameData.bin".to_string();
+                            let lp = crate::gen::fs::expected_localized(GAMES[game as usize], LANGS[language as usize], &p).unwrap_or_else(|| p.clone());
+                            if variant == 3 {
+                                vec![
+                                    Op::Read { path: lp.clone(), localized: false },
+                                    Op::Write { path: p.clone(), payload: Payload::Raw(vec![7, 7, 7, 7]), localized: true },
+                                    Op::Read { path: lp.clone(), localized: false },
+                                    Op::Read { path: p.clone(), localized: true },
+                                    Op::Resolve { path: lp.clone(), localized: false },
+                                    Op::FileExists { path: p.clone(), localized: true },
+                                ]
+                            } else {
+                                vec![
+                                    Op::Read { path: p.clone(), localized: true },
+                                    Op::Exists { path: p.clone(), localized: true },
+                                    Op::Write { path: lp.clone(), payload: Payload::Raw(vec![8, 8]), localized: false },
+                                    Op::Read { path: p.clone(), localized: true },
+                                    Op::Read { path: lp.clone(), localized: false },
+                                    Op::Write { path: p.clone(), payload: Payload::Raw(vec![9]), localized: true },
+                                    Op::Read { path: lp.clone(), localized: false },
+                                ]
+                            }
+                        }
                         _ => vec![
                             Op::CreateDir { path: "data/readme".into(), localized: false },
                             Op::Read { path: "data/readme".into(), localized: false },
@@ -422,7 +456,7 @@ impl Prop for C12 {
         }
     }
     fn exhaustive_note(_tier: Tier) -> Option<String> {
-        Some("all 40 game x language configurations x 3 fixed scenarios on a 3-layer filesystem (shadowing write + reads, compressed-suffix writes incl. a payload identical to the lower layer's and the empty payload, a directory shadowing a lower-layer file)".into())
+        Some("all 40 game x language configurations x 5 fixed scenarios on a 3-layer filesystem (one location read and written alternately under its two spellings - P with localisation, localize(P) without -, shadowing write + reads, compressed-suffix writes incl. a payload identical to the lower layer's and the empty payload, a directory shadowing a lower-layer file)".into())
     }
     fn shrink(c: &Case) -> Vec<Case> {
         let mut v = Vec::new();
